@@ -61,7 +61,7 @@ def main():
             caught = sorted(c for c, v in out.items() if isinstance(v, dict) and v.get('rc') == 1)
             print(name, 'caught by', caught or '-', flush=True)
             json.dump(matrix, open(mpath, 'w'), indent=1, sort_keys=True)
-            subprocess.run(['python3', '-c', 'import sys; sys.path.insert(0, %r); from mcai import configs; configs.prune_cache(keep=4)' % VERIF])
+            subprocess.run(['python3', '-c', 'import sys; sys.path.insert(0, %r); from mcai import configs; configs.prune_cache(keep=12)' % VERIF])
 
 
 if __name__ == '__main__':
